@@ -66,6 +66,8 @@ def gen(rng: random.Random, *, cdda_ok: bool = True, pairs: bool = True) -> dict
                         files.append({"kind": "sample", "name": nm, "ftype": rng.choice([0xF3, 0x73]), "key": "n%d.%d.%d.%d" % (rng.getrandbits(20), pi, vi, fi),
                                       "n": n, "typ": 3, "rate": rng.choice([44100, 22050]), "policy": rng.choice(["contiguous", "random"]),
                                       "seed": rng.getrandbits(20)})
+                        if rng.random() < 0.25:
+                            files[-1]["silent_tail"] = rng.choice([1, 1, 2, 8])      # a recording that ends in digital silence
                 vols.append({"name": vnames[vi], "vtype": 3, "dir": {"mode": "chain", "policy": "contiguous", "seed": 0}, "files": files})
             parts.append({"spare": 2, "volumes": vols})
         return {"fmt": "akai", "model": {"partitions": parts, "trailing": rng.choice([0, 0, 700, 8192])}, "block": rng.choice([4096, 4096, 64, 510])}
@@ -83,6 +85,8 @@ def gen(rng: random.Random, *, cdda_ok: bool = True, pairs: bool = True) -> dict
             mode = rng.choice([0, 2, 2, 5])
             samples.append({"name": nm, "key": "q%d.%d" % (rng.getrandbits(20), i), "n": n, "points": [[0, 0], [0, 0], [n - 1, 0], [0, 0], [n - 1, 0]],
                             "loop_mode": mode, "cluster_top": 0, "freq": rng.randint(0, 5), "orig_key": 60, "policy": "contiguous", "seed": 0})
+            if rng.random() < 0.25:
+                samples[-1]["silent_tail"] = rng.choice([1, 1, 2, 8])
         nperf = weighted(rng, [(1, 3), (2, 2), (3, 1)])
         partials, patches, perfs = [], [], []
         pnames = ascii_name_set(rng, nperf, pairs=False)
